@@ -154,6 +154,8 @@ pub enum Style {
     NoTail,
     /// every dependency is included twice: once at its place and once more after all the others
     Dup,
+    /// Dup plus the execution marker of Marker
+    DupMarker,
 }
 
 #[derive(Clone, Copy, PartialEq, Eq, Debug)]
@@ -230,7 +232,7 @@ impl Proj {
             let y = rel_out(i, j);
             let y = y.as_str();
             let after = match self.style {
-                Style::Include | Style::Marker | Style::NoTail | Style::Dup => false,
+                Style::Include | Style::Marker | Style::NoTail | Style::Dup | Style::DupMarker => false,
                 Style::After => true,
                 Style::Mixed => k % 2 == 1,
             };
@@ -240,12 +242,12 @@ impl Proj {
                 s.push_str(&format!("TXTPP#include {y}\n"));
             }
         }
-        if self.style == Style::Dup {
+        if matches!(self.style, Style::Dup | Style::DupMarker) {
             for j in self.g.deps(i) {
                 s.push_str(&format!("TXTPP#include ./{}\n", rel_out(i, j)));
             }
         }
-        if self.style == Style::Marker {
+        if matches!(self.style, Style::Marker | Style::DupMarker) {
             s.push_str(&format!("-TXTPP#run echo x >> {}/{x}\n", marker_dir.display()));
         }
         if self.style == Style::NoTail && !self.g.deps(i).is_empty() {
@@ -267,7 +269,7 @@ impl Proj {
         for j in self.g.deps(i) {
             s.push_str(&self.oracle(j)?);
         }
-        if self.style == Style::Dup {
+        if matches!(self.style, Style::Dup | Style::DupMarker) {
             for j in self.g.deps(i) {
                 s.push_str(&self.oracle(j)?);
             }
@@ -334,6 +336,7 @@ impl Case {
             "Marker" => Style::Marker,
             "NoTail" => Style::NoTail,
             "Dup" => Style::Dup,
+            "DupMarker" => Style::DupMarker,
             _ => Style::Include,
         };
         let pre = match v["pre"].as_str().unwrap_or("") {
@@ -653,7 +656,7 @@ pub fn check_obs(prop: &str, case: &Case, o: &Obs) -> Vec<Finding> {
                     out.push(fnd("output-missing", format!("{} missing after success", out_name(i))));
                 }
             }
-            if case.proj.style == Style::Marker && case.mode != Mode::Clean {
+            if matches!(case.proj.style, Style::Marker | Style::DupMarker) && case.mode != Mode::Clean {
                 let m = o.markers[i];
                 let limit = 1;
                 if m > limit {
@@ -858,6 +861,11 @@ pub fn plan(prop: &str, thorough: bool) -> Vec<Case> {
                     cases.extend(alias_cases(&proj, thorough));
                 }
             }
+            // every dependency listed twice (multi-edges in the dependency lists)
+            for g in graphs.iter().chain(g4.iter()).filter(|g| !g.edges().is_empty() && (thorough || (g.n < 4 && g.canonical() == g.adj) || (g.n == 4 && g.edges().len() <= 3))) {
+                let proj = Proj { g: *g, style: Style::DupMarker, layout: false, err: None };
+                cases.extend(sel_cases(&proj, &[Pre::Stale], &[Mode::Build], thorough && g.n < 4));
+            }
             for g in g4.iter() {
                 let proj = Proj { g: *g, style: Style::Marker, layout: false, err: None };
                 cases.extend(sel_cases(&proj, &[Pre::Stale], &[Mode::Build], thorough));
@@ -876,6 +884,11 @@ pub fn plan(prop: &str, thorough: bool) -> Vec<Case> {
             for g in g4.iter() {
                 let proj = Proj { g: *g, style: Style::Include, layout: false, err: None };
                 cases.extend(sel_cases(&proj, &[Pre::Stale], &[Mode::Build], true));
+            }
+            // every dependency listed twice (multi-edges: the last entry of a dependency list repeats an earlier one)
+            for g in graphs.iter().chain(g4.iter()).filter(|g| !g.edges().is_empty() && (thorough || g.n < 4 || g.edges().len() <= 3)) {
+                let proj = Proj { g: *g, style: Style::Dup, layout: false, err: None };
+                cases.extend(sel_cases(&proj, &[Pre::Stale], &[Mode::Build], g.n < 4));
             }
         }
         _ => unreachable!(),
